@@ -25,7 +25,7 @@ if [ $res_apply = ok ]; then
   with=$(run_demo with)
   rm $sw/$dir/zz_seed_demo_test.go
   (cd $sw/$moddir && go build ./... && go test -vet=off -count=1 -timeout 25m ./... > /tmp/suite.$p$v.log 2>&1)
-  suite_fail=$(grep -E "^(FAIL|--- FAIL)" /tmp/suite.$p$v.log | grep -v "TestIdlGenerator_GenModel\|TestPlugin_Handle\|TestRun\|cmd/hz/generator\|cmd/hz/protobuf\|cmd/hz/thrift" | head -5 | tr '\n' ';')
+  suite_fail=$(grep -E "^\s*--- FAIL|build failed|^panic:" /tmp/suite.$p$v.log | grep -v "TestIdlGenerator_GenModel\|TestPlugin_Handle\|TestRun\b" | head -5 | tr '\n' ';')
   git checkout -q -- . ; git clean -fdq
   cp $demo $sw/$dir/zz_seed_demo_test.go
   without=$(run_demo without)
